@@ -31,6 +31,7 @@ Definition dispatch (id : Z) (s : list Z) : list Z :=
   else if id =? 501 then run_P chk_hnsw_hybrid s
   else if id =? 800 then run_P chk_storehist s
   else if id =? 801 then run_P chk_store_hnsw s
+  else if id =? 1001 then run_P chk_flush_race s
   else if id =? 1700 then run_P chk_lockhist s
   else if id =? 1701 then run_P chk_close_order s
   else if id =? 1200 then run_P chk_hnswhist s
